@@ -907,12 +907,19 @@ func ruleRefKey(c *Ctx) {
 	for _, pr := range []pair{{"Ref", "$ref"}, {"SchemaURL", "$schema"}} {
 		m := c.decl(c.method(pr.typ, "MarshalJSON"))
 		fmFunc, mapIdx := c.presenceHelper(pr.typ)
+		var simParserArgs []sval
+		simDecided := false
 		fm := c.decl(fmFunc)
 		if m == nil {
 			c.undecided(rule, pr.typ+".MarshalJSON", token.NoPos, "encoder not found")
 		} else {
 			c.saw(c.funcName(m))
 			keys := c.mapLitKeys(m)
+			// (a helper only this encoder calls renders for it)
+			owned := c.ownedHelpers(m)
+			for _, h := range owned {
+				keys = append(keys, c.mapLitKeys(h)...)
+			}
 			ok := len(keys) > 0
 			for _, k := range keys {
 				if k != pr.key {
@@ -921,7 +928,11 @@ func ruleRefKey(c *Ctx) {
 			}
 			c.ob(rule, pr.typ+".MarshalJSON:map-key", m.Pos(), ok, fmt.Sprintf("member names written: %v, want only %q", keys, pr.key))
 			// constant byte literals must be {} or an object with only that member
-			for i, txt := range c.byteLitTexts(m) {
+			texts := c.byteLitTexts(m)
+			for _, h := range owned {
+				texts = append(texts, c.byteLitTexts(h)...)
+			}
+			for i, txt := range texts {
 				var v map[string]interface{}
 				err := json.Unmarshal([]byte(txt), &v)
 				ok := err == nil
@@ -939,6 +950,10 @@ func ruleRefKey(c *Ctx) {
 		} else {
 			c.saw(c.funcName(fm))
 			keys := c.indexConstKeys(fm, c.paramObj(fm, mapIdx))
+			if sk, pa, decided := c.fromMapFactsBySim(fm, c.paramObj(fm, mapIdx)); decided {
+				// read off the effect normal form (a lookup helper shared by the two types is inlined)
+				keys, simParserArgs, simDecided = sk, pa, true
+			}
 			ok := len(keys) > 0
 			for _, k := range keys {
 				if k != pr.key {
@@ -948,7 +963,23 @@ func ruleRefKey(c *Ctx) {
 			c.ob(rule, pr.typ+".fromMap:key", fm.Pos(), ok, fmt.Sprintf("member names read: %v, want only %q", keys, pr.key))
 		}
 		// the text handed to the reference parser is the decoded member itself, not a rewriting of it
-		if fm != nil && pr.typ == "Ref" {
+		if fm != nil && pr.typ == "Ref" && simDecided {
+			for i, a := range simParserArgs {
+				ix, isIx := a.(svIndex)
+				good := isIx && isBareParam(ix.x, c.paramObj(fm, mapIdx))
+				if good {
+					if k, isK := ix.i.(svConst); !isK || k.v.String() != fmt.Sprintf("%q", pr.key) {
+						good = false
+					}
+				}
+				key := pr.typ + ".fromMap:text-verbatim"
+				if i > 0 {
+					key = fmt.Sprintf("%s#%d", key, i+1)
+				}
+				c.ob(rule, key, fm.Pos(), good,
+					"the text given to the reference parser is not the decoded member itself ("+svString(a)+"): decoding rewrites the reference text")
+			}
+		} else if fm != nil && pr.typ == "Ref" {
 			defs := c.localDefs(fm)
 			ast.Inspect(fm.Body, func(n ast.Node) bool {
 				call, ok := n.(*ast.CallExpr)
@@ -1089,6 +1120,10 @@ func ruleRefKey(c *Ctx) {
 		for k := range c.schemaDecoderEvents().delConst {
 			deleted[k] = true
 		}
+		// ... or, on the effect normal form, the key is known not to be the member at every store into ExtraProps
+		if ef, ok := c.extraFillBySim(u); ok {
+			deleted["$ref"], deleted["$schema"] = ef.refOK, ef.schemaOK
+		}
 		for _, k := range []string{"$ref", "$schema"} {
 			c.ob(rule, "Schema.UnmarshalJSON:delete("+k+")", u.Pos(), deleted[k], "hand-coded member is not removed from the generic map, so it would be re-emitted a second time through ExtraProps")
 		}
@@ -1155,4 +1190,35 @@ func (c *Ctx) verbatimMember(fd *ast.FuncDecl, e ast.Expr, defs map[types.Object
 		return false, "result of " + exprString(x.Fun)
 	}
 	return false, "computed by " + exprString(e)
+}
+
+// ownedHelpers: the unexported package functions (not methods) that fd calls and that nothing else in the package
+// uses.
+func (c *Ctx) ownedHelpers(fd *ast.FuncDecl) []*ast.FuncDecl {
+	self, _ := c.Info.Defs[fd.Name].(*types.Func)
+	if self == nil {
+		return nil
+	}
+	var out []*ast.FuncDecl
+	for _, g := range c.staticCallees(self) {
+		if g.Exported() || g.Type().(*types.Signature).Recv() != nil {
+			continue
+		}
+		only := true
+		for _, other := range c.allFuncDecls() {
+			if other == fd || other.Body == nil {
+				continue
+			}
+			ast.Inspect(other.Body, func(n ast.Node) bool {
+				if id, ok := n.(*ast.Ident); ok && c.Info.Uses[id] == types.Object(g) {
+					only = false
+				}
+				return true
+			})
+		}
+		if gd := c.decl(g); only && gd != nil && gd.Body != nil {
+			out = append(out, gd)
+		}
+	}
+	return out
 }
